@@ -63,6 +63,44 @@ func TestBounded_C08(t *testing.T) {
 		}
 	}
 	bStat("C08.exhaustive_states", total)
+	// a loaded version that is persisted again without a change keeps its name: the root name
+	// always is the name of the root node's bytes, for both formats and at every height
+	for _, nf := range bFormats {
+		for _, bf := range []uint{2, 4, 16} {
+			st := newBStore("mem://rename")
+			model := map[int]int{}
+			for k := 0; k < 300; k++ {
+				model[k*3] = k % 5
+			}
+			m, err := bBuild(bf, nf, st, model, 0, false)
+			if err != nil {
+				continue
+			}
+			r1, err := m.MakeRoot(bctx)
+			if err != nil || r1.Link == nil {
+				continue
+			}
+			for _, cache := range []NodeCache{nil, NewNodeCache(64)} {
+				m2, err := r1.LoadMast(bctx, bCfg(st, cache))
+				if err != nil {
+					bViolation(t, "C05", "reload-error", "nf=%s bf=%d: %v", nf, bf, err)
+					continue
+				}
+				m2.Iter(bctx, func(k, v interface{}) error { return nil }) // touch every node
+				r2, err := m2.MakeRoot(bctx)
+				if err != nil {
+					continue
+				}
+				if bRootString(r2) != bRootString(r1) {
+					bViolation(t, "C08", "unmodified-other-name", "nf=%s bf=%d cache=%v: version %s, loaded and persisted again unchanged, is returned as %s", nf, bf, cache != nil, bRootString(r1), bRootString(r2))
+					continue
+				}
+				if b, ok := st.data[*r2.Link]; !ok || nameOfBytes(b) != *r2.Link {
+					bViolation(t, "C08", "name-not-hash", "nf=%s bf=%d: root name %s is not the name of stored bytes", nf, bf, *r2.Link)
+				}
+			}
+		}
+	}
 	// the encoding is a function of entries and child names alone: encode the same node twice,
 	// and from differently built in-memory nodes
 	for _, nf := range bFormats {
